@@ -17,11 +17,15 @@ Abstract program (JSON-able dict, so it can be written into replay files as is):
 
 * node ids are list positions; every reference points to a smaller id (ids are *an* abstract
   creation order; realisations are free to create nodes in any order compatible with the dataflow).
-* `op` ∈ arg, init, Constant, Add, Mul, Neg, Abs, Identity, Not, Less, Cast, Where, Concat (variadic),
+* `op` ∈ arg, init, Constant, Add, Sub, Mul, Max / Min (variadic), Transpose, Neg, Abs, Identity, Not, Less, Cast, Where, Concat (variadic),
   Clip (inner / trailing optional inputs), ReduceSum (trailing optional input omitted),
-  Split (multi-output, optional `split` input), TopK (multi-output), If (subs = [then, else]),
+  Split (multi-output, optional `split` input), TopK (multi-output), Reshape (to rank 1),
+  Scan (ins = states + scan inputs; body args = state formals + slice formals; body res = states +
+  scan-output slices), If (subs = [then, else]),
   Loop (ins = [M?, cond?, state...]; subs = [body]; body args = [iter, cond, state...];
   body res = [cond, state..., scan...]; outputs = final states then stacked scan outputs).
+* Constant / init nodes carry `attrs.layout` ∈ C, T, F, strided, rev, broadcast: the memory layout of
+  the source ndarray handed to spox (`layout_view`); the logical value is `attrs.value`.
 * `arg` nodes with attrs.role == "main" are the model inputs (named `in<id>`); role "formal" are
   body formals.  A body may refer to any older node (closure); a node that depends on a formal is
   only ever used inside that formal's body (leak-free by construction).
@@ -65,9 +69,11 @@ ONNX_NAME = {
     "Constant": "Constant", "Add": "Add", "Mul": "Mul", "Neg": "Neg", "Abs": "Abs",
     "Identity": "Identity", "Not": "Not", "Less": "Less", "Cast": "Cast", "Where": "Where",
     "Concat": "Concat", "Clip": "Clip", "ReduceSum": "ReduceSum", "Split": "Split", "TopK": "TopK",
-    "If": "If", "Loop": "Loop",
+    "If": "If", "Loop": "Loop", "Scan": "Scan", "Reshape": "Reshape",
+    "Sub": "Sub", "Max": "Max", "Min": "Min", "Transpose": "Transpose",
 }
-SUB_ATTRS = {"If": ["then_branch", "else_branch"], "Loop": ["body"]}
+SUB_ATTRS = {"If": ["then_branch", "else_branch"], "Loop": ["body"], "Scan": ["body"]}
+LAYOUTS = ["C", "T", "F", "strided", "rev", "broadcast"]
 
 MAG_INT = 2 ** 40
 MAG_FLOAT = 1e25
@@ -105,7 +111,7 @@ def bshape(a, b):
             return None
         if len(o[1]) == 0:
             return [], True
-        if len(o[1]) == 1 and o[1][0] >= 1:
+        if len(o[1]) >= 1 and all(d >= 1 for d in o[1]):
             return list(o[1]), False
         return None
     if a[1] == b[1] and concrete(a):
@@ -126,6 +132,7 @@ class _Gen:
         self.nodes: list[dict] = []
         self.dep: list[frozenset] = []
         self.uniq = 0
+        self.bias = False  # prefer values that depend on body formals (sharing below a body)
 
     # -- node creation
     def add(self, op, ins=(), subs=(), attrs=None, tys=(), extra_dep=frozenset()):
@@ -168,14 +175,22 @@ class _Gen:
         """Bias towards recent values (depth) while keeping old ones in play (sharing)."""
         if not cands:
             return None
+        if self.bias:
+            sub = [c for c in cands if self.dep[c[0]]]
+            if sub:
+                return self.rng.choice(sub)
         if self.rng.random() < 0.6:
             return cands[-1 - min(len(cands) - 1, int(self.rng.expovariate(0.5)))]
         return self.rng.choice(cands)
 
-    def const_value(self, t):
+    def const_value(self, t, layout="C"):
         self.uniq += 1
         shape = [d if d is not None else 2 for d in t[1]]
         n = int(np.prod(shape)) if shape else 1
+        if layout == "broadcast":  # all leading-axis slices equal: the source is a broadcast view
+            inner = n // shape[0]
+            row = self.const_value(ty(t[0], shape[1:]))
+            return row[:inner] * shape[0]
         if t[0] == "bool":
             vals = [bool((self.uniq + i) % 2) for i in range(n)]
         elif t[0] == "i64":
@@ -187,7 +202,11 @@ class _Gen:
     def make_const(self, t, init_ok=True):
         t = ty(t[0], [d if d is not None else 2 for d in t[1]])
         op = "init" if (init_ok and self.rng.random() < 0.35) else "Constant"
-        k = self.add(op, attrs={"value": self.const_value(t), "uid": self.uniq}, tys=[t])
+        # how the source ndarray handed to spox is laid out in memory (its logical value is `value`)
+        layout = "C"
+        if t[1] and self.rng.random() < 0.6:
+            layout = self.rng.choice([l for l in LAYOUTS[1:] if len(t[1]) >= 2 or l not in ("T", "F")])
+        k = self.add(op, attrs={"value": self.const_value(t, layout), "uid": self.uniq, "layout": layout}, tys=[t])
         return (k, 0)
 
     def find_or_make(self, active, t, prefer_from: int = 0, p_reuse=0.85):
@@ -209,12 +228,47 @@ class _Gen:
     def gen_op(self, active: frozenset, depth: int) -> None:
         rng = self.rng
         num = lambda u: u[0] in NUMERIC  # noqa: E731
+        self.bias = bool(active) and rng.random() < 0.4
+        deep = depth < self.max_depth
         choice = rng.choices(
-            ["un", "bin", "less", "cast", "where", "concat", "clip", "rsum", "split", "topk", "const", "if", "loop"],
-            [14, 22, 6, 8, 7, 7, 8, 5, 6, 5, 5, 9 if depth < self.max_depth else 0, 8 if depth < self.max_depth else 0],
+            ["un", "bin", "less", "cast", "where", "concat", "clip", "rsum", "split", "topk", "const", "flat", "if", "loop", "scan",
+             "maxmin", "transpose"],
+            [14, 22, 6, 8, 7, 7, 8, 5, 6, 5, 6, 5, 10 if deep else 0, 7 if deep else 0, 4 if deep else 0, 5, 4],
         )[0]
         if choice == "const":
-            self.make_const(rng.choice([ty("i64", [N]), ty("f32", [N]), ty("i64", []), ty("f32", []), ty("bool", [N])]))
+            self.make_const(rng.choice([ty("i64", [N]), ty("f32", [N]), ty("i64", []), ty("f32", []), ty("bool", [N]),
+                                        ty("i64", [2, N]), ty("f32", [N, 2]), ty("i64", [2, 2, N])]))
+            return
+        if choice == "flat":
+            x = self.pick(self.usable(active, lambda u: not u[2] and concrete(u) and len(u[1]) >= 2))
+            if x is None:
+                x = self.make_const(rng.choice([ty("i64", [2, N]), ty("f32", [N, 2])]))
+            t = self.tyof(x)
+            self.uniq += 1
+            sh = self.add("Constant", attrs={"value": [-1], "uid": self.uniq}, tys=[ty("i64", [1])])
+            self.add("Reshape", [x, (sh, 0)], tys=[ty(t[0], [int(np.prod(t[1]))])])
+            return
+        if choice == "scan":
+            self.gen_scan(active, depth)
+            return
+        if choice == "maxmin":  # variadic, 1-3 operands of one type
+            x = self.pick(self.usable(active, lambda u: num(u) and not u[2] and concrete(u)))
+            if x is None:
+                return
+            t = self.tyof(x)
+            parts = [x] + [self.find_or_make(active, t, p_reuse=0.9) for _ in range(rng.choice([0, 1, 1, 2]))]
+            rng.shuffle(parts)
+            self.add(rng.choice(["Max", "Min"]), parts, tys=[t])
+            return
+        if choice == "transpose":
+            x = self.pick(self.usable(active, lambda u: not u[2] and concrete(u) and len(u[1]) >= 2))
+            if x is None:
+                x = self.make_const(rng.choice([ty("i64", [2, N]), ty("f32", [N, 2]), ty("i64", [2, 2, N])]))
+            t = self.tyof(x)
+            perm = list(range(len(t[1])))
+            while perm == sorted(perm):
+                rng.shuffle(perm)
+            self.add("Transpose", [x], attrs={"perm": perm}, tys=[ty(t[0], [t[1][i] for i in perm])])
             return
         if choice == "un":
             a = self.pick(self.usable(active))
@@ -245,7 +299,7 @@ class _Gen:
             if choice == "less":
                 self.add("Less", [a, b], tys=[ty("bool", sh[0], sh[1])])
             else:
-                self.add(rng.choice(["Add", "Add", "Mul"]), [a, b], tys=[ty(ta[0], sh[0], sh[1])])
+                self.add(rng.choice(["Add", "Add", "Mul", "Sub"]), [a, b], tys=[ty(ta[0], sh[0], sh[1])])
             return
         if choice == "cast":
             # never Cast directly on a Cast result: onnxruntime's mandatory duplicate-cast removal
@@ -423,10 +477,53 @@ class _Gen:
         self.add("Loop", [m, cond0] + inits, [body], tys=tys)
 
 
+def _gen_scan(self, active, depth):
+    """Scan: ins = states + scan inputs; body args = state formals + slice formals;
+    body res = states + scan output slices; outputs = final states + stacked scan outputs."""
+    rng = self.rng
+    states = self.result_types(active, rng.choice([0, 1, 1, 2]))
+    inits = [self.find_or_make(active, t) for t in states]
+    # scan inputs: concrete rank >= 1, common leading length
+    first = self.pick(self.usable(active, lambda u: not u[2] and concrete(u) and len(u[1]) >= 1 and u[1][0] >= 1))
+    if first is None:
+        first = self.make_const(ty("i64", [2, N]))
+    T = self.tyof(first)[1][0]
+    scans_in = [first]
+    if rng.random() < 0.4:
+        c = self.usable(active, lambda u: not u[2] and concrete(u) and len(u[1]) >= 1 and u[1][0] == T)
+        scans_in.append(self.pick(c))
+    formals = [self.add("arg", attrs={"role": "formal"}, tys=[t]) for t in states]
+    for r in scans_in:
+        t = self.tyof(r)
+        formals.append(self.add("arg", attrs={"role": "formal"}, tys=[ty(t[0], t[1][1:])]))
+    for f in formals:
+        self.dep[f] = frozenset([f])
+    inner = active | frozenset(formals)
+    start = len(self.nodes)
+    self.gen_block(inner, depth + 1, rng.choice([1, 2, 3, 4, 5]))
+    sres = [self.find_or_make(inner, t, prefer_from=start) for t in states]
+    outs = []
+    for _ in range(rng.choice([0, 1, 1, 2]) if states else rng.choice([1, 2])):
+        c = [r for r in self.usable(inner, lambda u: not u[2] and concrete(u) and len(u[1]) <= 1)]
+        fresh = [r for r in c if r[0] >= start]
+        r = rng.choice(fresh) if fresh and rng.random() < 0.8 else self.pick(c)
+        if r is not None:
+            outs.append(r)
+    if not states and not outs:
+        outs.append((formals[-1], 0) if len(self.tyof((formals[-1], 0))[1]) <= 1 else self.make_const(ty("i64", [N])))
+    body = {"args": formals, "res": sres + outs}
+    tys = list(states) + [ty(self.tyof(r)[0], [T] + self.tyof(r)[1]) for r in outs]
+    self.add("Scan", inits + scans_in, [body], attrs={"num_scan_inputs": len(scans_in)}, tys=tys)
+
+
+_Gen.gen_scan = _gen_scan
+
+
 def gen_program(rng: random.Random, size: int = 20, max_depth: int = 3, opset: int = 17) -> dict:
     """A seeded random, well-typed, leak-free program with about `size` nodes."""
     g = _Gen(rng, size, max_depth)
-    kinds = [ty("i64", [N]), ty("f32", [N]), ty("i64", []), ty("bool", []), ty("bool", [N]), ty("f32", [])]
+    kinds = [ty("i64", [N]), ty("f32", [N]), ty("i64", []), ty("bool", []), ty("bool", [N]), ty("f32", []),
+             ty("i64", [2, N]), ty("f32", [N, 2])]
     chosen = [kinds[0], kinds[rng.randrange(2)]] + [rng.choice(kinds) for _ in range(rng.randint(0, 3))]
     rng.shuffle(chosen)
     for t in chosen:
@@ -559,7 +656,17 @@ def typecheck(prog) -> list[str]:
             elif op in ("init", "Constant"):
                 cnt = int(np.prod(out[0][1])) if out[0][1] else 1
                 ok = not ins and concrete(out[0]) and not out[0][2] and len(n["attrs"]["value"]) == cnt
-            elif op in ("Add", "Mul", "Less"):
+                ok = ok and n["attrs"].get("layout", "C") in LAYOUTS
+            elif op in ("Max", "Min"):
+                ts = [T(r) for r in ins]
+                ok = 1 <= len(ts) <= 3 and ts[0][0] in NUMERIC and not ts[0][2] and concrete(ts[0]) and all(
+                    same_ty(t, ts[0]) for t in ts) and same_ty(out[0], ts[0])
+            elif op == "Transpose":
+                x = T(ins[0])
+                pm = n["attrs"]["perm"]
+                ok = (not x[2] and concrete(x) and sorted(pm) == list(range(len(x[1]))) and len(x[1]) >= 2
+                      and same_ty(out[0], ty(x[0], [x[1][i] for i in pm])))
+            elif op in ("Add", "Mul", "Less", "Sub"):
                 a, b = T(ins[0]), T(ins[1])
                 sh = bshape(a, b)
                 ok = a[0] == b[0] and a[0] in NUMERIC and sh is not None and same_ty(
@@ -599,6 +706,27 @@ def typecheck(prog) -> list[str]:
                 kv = const_of(ins[1])
                 ok = (x[0] in NUMERIC and not x[2] and concrete(x) and len(x[1]) == 1 and kv is not None and len(kv) == 1
                       and 1 <= kv[0] <= x[1][0] and same_ty(out[0], ty(x[0], [kv[0]])) and same_ty(out[1], ty("i64", [kv[0]])))
+            elif op == "Reshape":
+                x = T(ins[0])
+                ok = (not x[2] and concrete(x) and len(x[1]) >= 1 and const_of(ins[1]) == [-1]
+                      and same_ty(out[0], ty(x[0], [int(np.prod(x[1]))])))
+            elif op == "Scan":
+                body = n["subs"][0]
+                m = n["attrs"]["num_scan_inputs"]
+                its = [T(r) for r in ins]
+                states, sin = its[: len(its) - m], its[len(its) - m:]
+                ns = len(states)
+                ok = m >= 1 and all(not t[2] and concrete(t) for t in its) and all(len(t[1]) >= 1 for t in sin)
+                ok = ok and len({t[1][0] for t in sin}) == 1
+                fts = [nodes[a]["ty"][0] for a in body["args"]]
+                ok = ok and len(fts) == len(its) and all(same_ty(f, t) for f, t in zip(fts, states))
+                ok = ok and all(same_ty(f, ty(t[0], t[1][1:])) for f, t in zip(fts[ns:], sin))
+                rts = [T(r) for r in body["res"]]
+                ok = ok and len(rts) >= ns and all(same_ty(r, t) for r, t in zip(rts[:ns], states))
+                so = rts[ns:]
+                ok = ok and all(not t[2] and concrete(t) and len(t[1]) <= 1 for t in so)
+                ok = ok and len(out) == ns + len(so) and all(same_ty(o, t) for o, t in zip(out, states))
+                ok = ok and all(same_ty(o, ty(t[0], [sin[0][1][0]] + t[1])) for o, t in zip(out[ns:], so))
             elif op == "If":
                 ok = same_ty(T(ins[0]), ty("bool", [])) and len(n["subs"]) == 2 and all(
                     not s["args"] and len(s["res"]) == len(out) and all(same_ty(T(r), t) and concrete(t) for r, t in zip(s["res"], out))
@@ -689,6 +817,15 @@ def eval_numpy(prog, binding: dict[int, np.ndarray]):
                 out = [np.add(inp(0), inp(1))]
             elif op == "Mul":
                 out = [np.multiply(inp(0), inp(1))]
+            elif op == "Sub":
+                out = [np.subtract(inp(0), inp(1))]
+            elif op in ("Max", "Min"):
+                acc_ = inp(0)
+                for j in range(1, len(n["ins"])):
+                    acc_ = (np.maximum if op == "Max" else np.minimum)(acc_, inp(j))
+                out = [np.array(acc_)]
+            elif op == "Transpose":
+                out = [np.transpose(inp(0), n["attrs"]["perm"])]
             elif op == "Neg":
                 out = [np.negative(inp(0))]
             elif op == "Abs":
@@ -736,6 +873,25 @@ def eval_numpy(prog, binding: dict[int, np.ndarray]):
                 kk = int(inp(1).reshape(-1)[0])
                 order = np.argsort(-x.astype(np.float64) if x.dtype != np.int64 else -x, kind="stable")[:kk]
                 out = [x[order], order.astype(np.int64)]
+            elif op == "Reshape":
+                out = [np.asarray(inp(0)).reshape(-1)]
+            elif op == "Scan":
+                body = n["subs"][0]
+                m = n["attrs"]["num_scan_inputs"]
+                allin = [inp(j) for j in range(len(n["ins"]))]
+                state, sin = allin[: len(allin) - m], allin[len(allin) - m:]
+                ns = len(state)
+                nso = len(body["res"]) - ns
+                acc: list[list] = [[] for _ in range(nso)]
+                for t_ in range(sin[0].shape[0]):
+                    lv2 = _Level(frozenset(body["args"]), L)
+                    for a, v in zip(body["args"], state + [np.asarray(z[t_]) for z in sin]):
+                        lv2.vals[a] = [v]
+                    res = [ev(r[0], lv2)[r[1]] for r in body["res"]]
+                    state = res[:ns]
+                    for s_, v in zip(acc, res[ns:]):
+                        s_.append(np.asarray(v))
+                out = list(state) + [np.stack(s_, axis=0) for s_ in acc]
             elif op == "If":
                 c = bool(np.asarray(inp(0)).reshape(-1)[0])
                 body = n["subs"][0 if c else 1]
@@ -818,6 +974,32 @@ def binding_from_json(prog, j):
 
 # ----------------------------------------------------------------------------------- realiser
 STYLES = ["lazy", "eager", "mixed", "mixed-extras", "eager-shuffled", "lazy-extras"]
+
+
+def layout_view(arr: np.ndarray, layout: str) -> np.ndarray:
+    """An ndarray with the same logical value as `arr` whose memory is not laid out C-contiguously:
+    T (transpose of a C array), F (Fortran order), strided (every other element of a wider buffer),
+    rev (negative stride on the last axis), broadcast (stride 0 on the first axis; the value must have
+    equal slices)."""
+    if arr.ndim == 0 or layout == "C":
+        return arr
+    if layout == "T":
+        v = np.ascontiguousarray(arr.T).T
+    elif layout == "F":
+        v = np.asfortranarray(arr)
+    elif layout == "strided":
+        big = np.zeros(arr.shape[:-1] + (2 * arr.shape[-1],), dtype=arr.dtype)
+        big[..., ::2] = arr
+        v = big[..., ::2]
+    elif layout == "rev":
+        v = np.ascontiguousarray(arr[..., ::-1])[..., ::-1]
+    elif layout == "broadcast":
+        v = np.broadcast_to(np.ascontiguousarray(arr[0]), arr.shape)
+    else:
+        raise HarnessError(f"unknown layout {layout}")
+    if not np.array_equal(v, arr) or v.shape != arr.shape:
+        raise HarnessError(f"layout {layout} does not preserve the value")
+    return v
 
 
 class Realised:
@@ -938,13 +1120,25 @@ def realise(prog, rng: random.Random, style: str = "lazy") -> Realised:
             return cb
 
         if o == "init":
-            outs = [initializer(np_const(n))]
+            outs = [initializer(layout_view(np_const(n), n["attrs"].get("layout", "C")))]
         elif o == "Constant":
-            outs = [op.constant(value=np_const(n))]
+            outs = [op.constant(value=layout_view(np_const(n), n["attrs"].get("layout", "C")))]
+        elif o == "Reshape":
+            outs = [op.reshape(a[0], a[1])]
+        elif o == "Scan":
+            outs = list(op.scan(a, body=callback(n["subs"][0]), num_scan_inputs=n["attrs"]["num_scan_inputs"]))
         elif o == "Add":
             outs = [op.add(a[0], a[1])]
         elif o == "Mul":
             outs = [op.mul(a[0], a[1])]
+        elif o == "Sub":
+            outs = [op.sub(a[0], a[1])]
+        elif o == "Max":
+            outs = [op.max(a)]
+        elif o == "Min":
+            outs = [op.min(a)]
+        elif o == "Transpose":
+            outs = [op.transpose(a[0], perm=n["attrs"]["perm"])]
         elif o == "Neg":
             outs = [op.neg(a[0])]
         elif o == "Abs":
@@ -966,7 +1160,12 @@ def realise(prog, rng: random.Random, style: str = "lazy") -> Realised:
         elif o == "ReduceSum":
             outs = [op.reduce_sum(a[0], a[1], keepdims=n["attrs"]["keepdims"])]
         elif o == "Split":
-            outs = list(op.split(a[0], a[1], outputs_count=n["attrs"]["outputs"], axis=n["attrs"]["axis"]))
+            import inspect
+
+            if "outputs_count" in inspect.signature(op.split).parameters:
+                outs = list(op.split(a[0], a[1], outputs_count=n["attrs"]["outputs"], axis=n["attrs"]["axis"]))
+            else:  # opset >= 18: the number of outputs is the `num_outputs` argument
+                outs = list(op.split(a[0], a[1], num_outputs=n["attrs"]["outputs"], axis=n["attrs"]["axis"]))
         elif o == "TopK":
             outs = list(op.top_k(a[0], a[1], axis=n["attrs"]["axis"], largest=n["attrs"]["largest"]))
         elif o == "If":
@@ -1559,7 +1758,7 @@ def _substitute(prog, k: int, i: int, new) -> dict:
         return list(new) if r is not None and r[0] == k and r[1] == i else r
 
     for n in p["nodes"]:
-        fixed = 1 if n["op"] in ("Split", "TopK") else None  # sizes / K must stay the constant
+        fixed = 1 if n["op"] in ("Split", "TopK", "Reshape") else None  # sizes / K / shape stay the constant
         n["ins"] = [r if j == fixed else sub(r) for j, r in enumerate(n["ins"])]
         for s in n["subs"]:
             s["res"] = [sub(r) for r in s["res"]]
@@ -1615,3 +1814,107 @@ def shrink(prog, bindings: list[dict], still_fails, budget: int = 120):
             if progress:
                 break
     return cur, curb
+
+
+def skeleton2_programs(max_uses: int = 3) -> Iterator[tuple[dict, str]]:
+    """Exhaustive family aimed at scope assignment *below a body with formals*: inside a Loop (or
+    Scan) body, a value `s` that DEPENDS ON THE BODY'S FORMALS is used in every non-empty subset
+    (|subset| ≤ max_uses) of eight graphs at three different depths below the body:
+
+        body ▸ If B { then ▸ If C { then ▸ If E { then, else }, else },  else ▸ If D { then, else } }
+
+    places: body, B.then, B.else, C.then, C.else, D.then, D.else, E.then.  So `s` is shared between
+    siblings and cousins at equal and at different depths, with the deeper use on either side; where
+    (and in which order) it is created is the realisation style's choice.  Yields (prog, tag)."""
+    places = ["body", "B.then", "B.else", "C.then", "C.else", "D.then", "D.else", "E.then"]
+    for kind in ("Loop", "Scan"):
+        for r in range(1, max_uses + 1):
+            for uses in itertools.combinations(range(8), r):
+                for two in (False, True):
+                    yield _skeleton2(set(uses), two, kind), kind + ":" + "+".join(places[u] for u in uses) + ("/w" if two else "")
+
+
+def _skeleton2(uses: set, two: bool, kind: str) -> dict:
+    nodes: list[dict] = []
+
+    def add(op, ins=(), subs=(), attrs=None, tys=()):
+        nodes.append({"op": op, "ins": [list(r) if r else None for r in ins], "subs": list(subs), "attrs": dict(attrs or {}), "ty": [list(t) for t in tys]})
+        return len(nodes) - 1
+
+    V = ty("i64", [N])
+    x = add("arg", attrs={"role": "main"}, tys=[V])
+    c = add("arg", attrs={"role": "main"}, tys=[ty("bool", [])])
+    d = add("arg", attrs={"role": "main"}, tys=[ty("bool", [])])
+    if kind == "Loop":
+        n = add("arg", attrs={"role": "main", "range": "trip"}, tys=[ty("i64", [])])
+        it = add("arg", attrs={"role": "formal"}, tys=[ty("i64", [], True)])
+        cn = add("arg", attrs={"role": "formal"}, tys=[ty("bool", [], True)])
+        acc = add("arg", attrs={"role": "formal"}, tys=[V])
+        other = (it, 0)
+        formals = [it, cn, acc]
+    else:
+        xs = add("arg", attrs={"role": "main"}, tys=[ty("i64", [2, N])])
+        acc = add("arg", attrs={"role": "formal"}, tys=[V])
+        sl = add("arg", attrs={"role": "formal"}, tys=[V])
+        other = (sl, 0)
+        formals = [acc, sl]
+    s = add("Mul", [(acc, 0), other], tys=[V])
+    if two:
+        s2 = add("Neg", [(s, 0)], tys=[V])
+        s = add("Add", [(s2, 0), (acc, 0)], tys=[V])
+
+    def use(place, base):
+        if place in uses:
+            return (add("Add", [base, (s, 0)], tys=[V]), 0)
+        return base
+
+    def iff(cond, t, e):
+        return (add("If", [(cond, 0)], [{"args": [], "res": [list(t)]}, {"args": [], "res": [list(e)]}], tys=[V]), 0)
+
+    e_out = iff(c, use(7, (acc, 0)), (acc, 0))
+    c_out = iff(d, use(3, e_out), use(4, (acc, 0)))
+    bt = use(1, c_out)
+    d_out = iff(d, use(5, (acc, 0)), use(6, (x, 0)))
+    be = use(2, d_out)
+    b_out = iff(c, bt, be)
+    res = use(0, b_out)
+    if kind == "Loop":
+        out = add("Loop", [(n, 0), None, (x, 0)], [{"args": formals, "res": [[cn, 0], list(res)]}], tys=[V])
+    else:
+        out = add("Scan", [(x, 0), (xs, 0)], [{"args": formals, "res": [list(res)]}], attrs={"num_scan_inputs": 1}, tys=[V])
+    return {"nodes": nodes, "outputs": [[out, 0]], "opset": 17}
+
+
+# ------------------------------------------------------------- bridge to C04's Builder model
+def to_buildalg(prog, margs: Optional[list[int]] = None, mres: Optional[list] = None) -> dict:
+    """The program in the format of C04's algorithm model (`Model/BuildAlg.lean`): nodes
+    `{a: is Argument, i: input node ids, s: graph ids of the bodies}` in id order, graphs
+    `{res: result node ids, args: argument ids}` with graph 0 = main (arguments / results in `margs` /
+    `mres` order = the order of the dicts handed to `build`)."""
+    graphs = [{"res": [r[0] for r in (prog["outputs"] if mres is None else mres)],
+               "args": list(main_args(prog) if margs is None else margs)}]
+    nodes = []
+    for n in prog["nodes"]:
+        gids = []
+        for s_ in n["subs"]:
+            graphs.append({"res": [r[0] for r in s_["res"]], "args": list(s_["args"])})
+            gids.append(len(graphs) - 1)
+        if n["op"] == "If":  # spox's attribute order is (else_branch, then_branch): that is the DFS order
+            gids.reverse()
+        nodes.append({"a": n["op"] == "arg", "i": [r[0] for r in n["ins"] if r is not None], "s": gids})
+    return {"nodes": nodes, "graphs": graphs}
+
+
+def normal_emission(prog, em, attr_order: bool = False):
+    """(`attr_order`: the emission lists the bodies of an If in spox's attribute order — else, then —
+    as the algorithm model does; they are put back into [then, else].)  Emission modulo what the two sides cannot agree on by construction: initializers have no
+    position in a GraphProto (compared as a set per graph), the algorithm model has no output index."""
+    is_init = lambda k: k < len(prog["nodes"]) and prog["nodes"][k]["op"] == "init"  # noqa: E731
+    return [
+        list(em[0]),
+        sorted(k for k, _ in em[1] if is_init(k)),
+        [[k, [normal_emission(prog, s_, attr_order) for s_ in
+              (list(reversed(subs)) if attr_order and k < len(prog["nodes"]) and prog["nodes"][k]["op"] == "If" else subs)]]
+         for k, subs in em[1] if not is_init(k)],
+        [r[0] for r in em[2]],
+    ]
